@@ -28,7 +28,7 @@ ASSUMPTIONS = [
     "schemas with a null-namespace type nested in a namespaced one are kept in the exact-text check only (the spec's own transformation is not re-parseable there, A23)",
     "cross-decoding uses data without logical Python types and with every field present",
 ]
-N = {"quick": 8000, "thorough": 320000}
+N = {"quick": 32000, "thorough": 640000}
 TIME_LIMIT = {"quick": 40, "thorough": 480}
 SHARDS = 16
 REACH = {
